@@ -123,9 +123,11 @@ CHECKS = {
              "datasets required. clients: 2..6 logical client tasks share one cold geometry array / "
              "HilbertRtree / GeoDataFrame / DaskGeoDataFrame and issue read-only operations (incl. "
              "pickle.dumps) under line-level pre-emption decided by the seeded scheduler; each call must "
-             "equal the result on a fresh single-threaded twin and none may raise. numba: thread-count "
-             "sweep {1,2,4,16} of the prange/parallel kernels, labelled as a sweep, not a controlled "
-             "schedule.",
+             "equal the result on a fresh single-threaded twin and none may raise; the clients also join "
+             "shared frames (sjoin) and pack through one shared filesystem object (fsspec transactions "
+             "modelled), and the shared objects must be unchanged afterwards. numba: thread-count "
+             "sweep {1,2,4,16} of the prange/parallel kernels (incl. rings of 20k-70k vertices), labelled "
+             "as a sweep, not a controlled schedule; each case measures that the sweep is effective.",
         design_ref="DESIGN.md 5/C18, 2.3, 2.7",
         note="pre-emption points are filesystem calls, task boundaries and spatialpandas source lines; "
              "races inside one numba kernel call or inside pyarrow/pandas C code are below every seam "
@@ -175,18 +177,23 @@ CHECKS = {
              "refresh kw x default/short retry budget x previous dataset) a fault-free baseline fixes the "
              "K fault points (every filesystem call, write and close). Every single fault (k, kind), kind "
              "in {EIO, FileNotFoundError (at every call), error-after-effect, torn write, ENOSPC, late "
-             "visibility / late deletion in listings, one stale listing, crash} is enumerated (quick: "
-             "2 configurations, writes thinned to first/middle/last per file; thorough: 48), "
-             "then repeated faults around the retry budget, then sampled pairs/triples and multi-worker "
-             "schedules. Oracle: completed => stored dataset equals the fault-free one; raised/crashed => "
+             "visibility / late deletion in listings, one stale listing, a move copied but not deleted, "
+             "crash} is generated (quick: 3 configurations, writes thinned to first/middle/last per "
+             "file; thorough: 54, six of them with six sub-parts feeding one partition), together with "
+             "repeated faults around the retry budget and path-addressed single faults under seeded "
+             "multi-worker schedules; these enumerated layers are run in one seeded permutation "
+             "stratified by (configuration, layer, kind), truncated by the budget (evidence reports how "
+             "many of each layer ran and 'exhaustive': false unless all did), interleaved with sampled "
+             "pairs/triples and sampled faults under multi-worker schedules. Oracle: completed => stored dataset equals the fault-free one; raised/crashed => "
              "a fault-free repeat with overwrite=True on the surviving tree equals it. Virtual time lets "
              "the library's default 24-attempt / 120 s back-off run unshortened.",
         design_ref="DESIGN.md 5/C19, 2.4",
         note="fault model is a modelling choice (DESIGN 2.4): only listings can be stale, point lookups "
              "see the real state; file reads are not faulted; executor drains in-flight tasks on error; "
              "trusted: pyarrow, pandas, dask graph construction, fsspec base, OS filesystem",
-        technique="deterministic simulation with exhaustive single-fault enumeration + sampled fault "
-                  "sequences, crash/restart, virtual time",
+        technique="deterministic simulation with single-fault enumeration per configuration (run as a "
+                  "seeded stratified permutation, budget-truncated) + sampled fault sequences, "
+                  "crash/restart, virtual time",
     ),
     "C10": dict(
         engine="E1 pack-to-storage",
